@@ -30,6 +30,7 @@ pub fn judge_hostile(scn: &McScenario, obs: &McObservation, clean: &McObservatio
             .unwrap_or("?"),
         FaultAt::Command(c) => clean.wire.get(*c).map(|w| w.kind.short()).unwrap_or("?"),
         FaultAt::Spawn(_) => "spawn",
+        FaultAt::ProcResponse(..) => "session-response",
     };
     let site_base = format!("{}@{}", fault.kind.class(), pending_kind);
     let mk = |oracle: &str, class: &str, site: String, detail: String| Violation {
@@ -596,6 +597,10 @@ pub struct ApiObservation {
     pub calls: Vec<CallResult>,
     /// for each API call: the response points it consumed (global indices)
     pub resp_of_call: Vec<Vec<usize>>,
+    /// for each API call: the response points it consumed as (spawn ordinal, index within that process)
+    pub local_resp_of_call: Vec<Vec<(usize, usize)>>,
+    /// for each API call: is the most recently spawned solver process alive when the call returns
+    pub alive_after: Vec<bool>,
     pub fired: Vec<FiredFault>,
     pub n_response_points: usize,
     pub events: u64,
@@ -613,6 +618,8 @@ fn exec_api(scn: &ApiScenario) -> ApiObservation {
     let world = World::new(scn.sim_seed, tcfg, policy, FaultPlan { faults: scn.faults.clone() });
     let mut calls: Vec<CallResult> = vec![];
     let mut resp_of_call: Vec<Vec<usize>> = vec![];
+    let mut local_resp_of_call: Vec<Vec<(usize, usize)>> = vec![];
+    let mut alive_after: Vec<bool> = vec![];
     let w2 = world.clone();
     let outcome = guarded_with_world(&world, || {
         let mut ctx = Context::default();
@@ -649,6 +656,7 @@ fn exec_api(scn: &ApiScenario) -> ApiObservation {
         };
         for op in &scn.ops {
             let before = w2.borrow().response_points();
+            let local_before = w2.borrow().current_proc();
             match op {
                 ApiOp::SetLogic => {
                     let l = if scn.profile == 2 { Logic::All } else { Logic::QfAufbv };
@@ -720,6 +728,13 @@ fn exec_api(scn: &ApiScenario) -> ApiObservation {
             }
             let after = w2.borrow().response_points();
             resp_of_call.push((before..after).collect());
+            let local_after = w2.borrow().current_proc();
+            local_resp_of_call.push(match (local_before, local_after) {
+                (Some((s0, r0, _)), Some((s1, r1, _))) if s0 == s1 => (r0..r1).map(|r| (s1, r)).collect(),
+                (_, Some((s1, r1, _))) => (0..r1).map(|r| (s1, r)).collect(),
+                _ => vec![],
+            });
+            alive_after.push(local_after.map(|x| x.2).unwrap_or(false));
         }
         Ok(())
     });
@@ -734,6 +749,8 @@ fn exec_api(scn: &ApiScenario) -> ApiObservation {
         outcome,
         calls,
         resp_of_call,
+        local_resp_of_call,
+        alive_after,
         fired: w.fired.clone(),
         n_response_points: w.response_points(),
         events: w.stats.events,
@@ -744,44 +761,138 @@ fn exec_api(scn: &ApiScenario) -> ApiObservation {
 }
 
 fn judge_api(scn: &ApiScenario, obs: &ApiObservation, clean: &ApiObservation, acc: &mut Acc) -> Option<Violation> {
-    let fault = scn.faults.first()?;
-    let mk = |oracle: &str, class: &str, site: String, detail: String| Violation {
+    let first = scn.faults.first()?;
+    let all_faults = scn.faults.iter().map(|f| f.describe()).collect::<Vec<_>>().join(" ; ");
+    let mk = |fault: &Fault, oracle: &str, class: &str, site: String, detail: String| Violation {
         property: "C15".into(),
         oracle: oracle.into(),
         class: class.into(),
         site,
-        detail: format!("{detail} [api program; fault: {}; profile={}]", fault.describe(), PROFILE_NAMES[scn.profile]),
+        detail: if scn.faults.len() == 1 {
+            format!("{detail} [api program; fault: {}; profile={}]", fault.describe(), PROFILE_NAMES[scn.profile])
+        } else {
+            format!("{detail} [api program; fault sequence: {all_faults}; profile={}]", PROFILE_NAMES[scn.profile])
+        },
     };
-    let site_base = format!("api:{}", fault.kind.class());
+    let site_of = |f: &Fault| format!("api:{}", f.kind.class());
     let v = match &obs.outcome {
-        Outcome::Panic { loc, msg } => Some(mk("C15/1", "Panic", loc.clone(), format!("a solver-session call panicked at {loc}: {msg}"))),
-        Outcome::Deadlock(d) => Some(mk("C15/1", "Deadlock", site_base.clone(), format!("a solver-session call blocks forever: {d}"))),
-        Outcome::Livelock(d) => Some(mk("C15/1", "Livelock", site_base.clone(), format!("a solver-session call never returns: {d}"))),
-        _ => {
-            // which call consumed the faulted response point?
-            let faulted_call = match &fault.at {
-                FaultAt::Response(r) => clean.resp_of_call.iter().position(|rs| rs.contains(r)),
+        Outcome::Panic { loc, msg } => Some(mk(first, "C15/1", "Panic", loc.clone(), format!("a solver-session call panicked at {loc}: {msg}"))),
+        Outcome::Deadlock(d) => Some(mk(first, "C15/1", "Deadlock", site_of(first), format!("a solver-session call blocks forever: {d}"))),
+        Outcome::Livelock(d) => Some(mk(first, "C15/1", "Livelock", site_of(first), format!("a solver-session call never returns: {d}"))),
+        _ => judge_api_calls(scn, obs, clean, acc, &mk),
+    };
+    match v {
+        Some(v) if filter_known(acc, &v) => None,
+        other => other,
+    }
+}
+
+/// The per-call oracle over a whole program with one fault or a sequence of faults. The program is
+/// cut into sessions at its `restart` calls. A session that starts with a successfully spawned
+/// process is independent of everything before it (the reference solver is seeded per spawn), so
+/// within it: calls before the session's fault answer as in the fault-free run; the call that
+/// consumed the faulty answer must not return Ok (and carries the solver's message); and once the
+/// session's process is dead no call that needs an answer may return Ok.
+fn judge_api_calls(
+    scn: &ApiScenario,
+    obs: &ApiObservation,
+    clean: &ApiObservation,
+    acc: &mut Acc,
+    mk: &dyn Fn(&Fault, &str, &str, String, String) -> Violation,
+) -> Option<Violation> {
+    let n = scn.ops.len().min(obs.calls.len()).min(clean.calls.len());
+    // session boundaries: [start, end) call indices; session s is created by the s-th spawn
+    let mut bounds: Vec<(usize, usize)> = vec![];
+    let mut start = 0;
+    for k in 0..n {
+        if scn.ops[k] == ApiOp::Restart {
+            bounds.push((start, k));
+            start = k;
+        }
+    }
+    bounds.push((start, n));
+    let site_of = |f: &Fault| format!("api:{}", f.kind.class());
+    let mut earlier_fault = false;
+    for (s, (a, b)) in bounds.iter().copied().enumerate() {
+        let spawn_failed = scn.faults.iter().find(|f| f.at == FaultAt::Spawn(s));
+        // the fault aimed at a response of this session and the call that consumes that response
+        let mut target: Option<(&Fault, usize)> = None;
+        for f in &scn.faults {
+            let j = match &f.at {
+                FaultAt::Response(r) => (a..b).find(|k| clean.resp_of_call[*k].contains(r)),
+                FaultAt::ProcResponse(ps, r) if *ps == s => (a..b).find(|k| clean.local_resp_of_call[*k].contains(&(s, *r))),
                 _ => None,
             };
-            let effective = obs.fired.first().map(|f| f.effective).unwrap_or(false);
-            let mut v = None;
-            if let Some(j) = faulted_call {
-                // calls before the faulted one are untouched
-                for k in 0..j {
-                    if obs.calls.get(k) != clean.calls.get(k) {
-                        v = Some(mk(
-                            "C15/4",
-                            "ResultChanged",
-                            site_base.clone(),
-                            format!("call #{k} ({:?}) changed from {:?} to {:?} although the fault hits call #{j}", scn.ops[k], clean.calls.get(k), obs.calls.get(k)),
-                        ));
-                        break;
-                    }
+            if let Some(j) = j {
+                if target.map(|t| j < t.1).unwrap_or(true) {
+                    target = Some((f, j));
                 }
-                if v.is_none() && effective {
+            }
+        }
+        let blame: &Fault = target.map(|t| t.0).or(spawn_failed).unwrap_or(&scn.faults[0]);
+        if spawn_failed.is_some() {
+            acc.count("probe.api_session_without_process", 1);
+        }
+        if earlier_fault && s > 0 && spawn_failed.is_none() {
+            acc.count("probe.api_restart_after_fault", 1);
+        }
+        let mut healthy = spawn_failed.is_none();
+        for k in a..b {
+            let needs_answer = !clean.resp_of_call[k].is_empty();
+            let is_target = target.map(|t| t.1 == k).unwrap_or(false);
+            let before_target = target.map(|t| k < t.1).unwrap_or(true);
+            if healthy && before_target {
+                // untouched part of a session: must answer as the fault-free run does
+                match (obs.calls.get(k), clean.calls.get(k)) {
+                    (Some(CallResult::Ok(x)), Some(CallResult::Ok(y))) if x != y => {
+                        return Some(mk(
+                            blame,
+                            if earlier_fault { "C15/2" } else { "C15/4" },
+                            if earlier_fault { "StaleAnswerAfterRestart" } else { "ResultChanged" },
+                            site_of(&scn.faults[0]),
+                            format!(
+                                "call #{k} ({:?}) of session {s} returned Ok({x}); the same call of the fault-free run returns Ok({y}) and no fault of this session precedes it",
+                                scn.ops[k]
+                            ),
+                        ));
+                    }
+                    (got, want) if got != want => {
+                        if !earlier_fault {
+                            return Some(mk(
+                                blame,
+                                "C15/4",
+                                "ResultChanged",
+                                site_of(&scn.faults[0]),
+                                format!("call #{k} ({:?}) changed from {want:?} to {got:?} although no fault precedes it", scn.ops[k]),
+                            ));
+                        }
+                        // an error in a restarted session (e.g. a restart that could not complete):
+                        // the rest of this session no longer corresponds to the fault-free run
+                        acc.count("note.api_error_after_restart", 1);
+                        if std::env::var("PATSIM_DEBUG_C15").is_ok() {
+                            let _ = std::fs::OpenOptions::new().create(true).append(true).open("/tmp/c15_debug.log").map(|mut f| {
+                                use std::io::Write;
+                                let _ = writeln!(f, "call #{k} {:?} session {s}: got {got:?} want {want:?}\n  ops={:?}\n  faults={:?}\n  calls={:?}", scn.ops[k], scn.ops, scn.faults, obs.calls);
+                            });
+                        }
+                        healthy = false;
+                    }
+                    _ => {}
+                }
+                continue;
+            }
+            if healthy && is_target {
+                let (fault, j) = target.unwrap();
+                let fired = obs.fired.iter().find(|ff| &ff.fault == fault);
+                let effective = fired.map(|f| f.effective).unwrap_or(false);
+                if scn.faults.len() > 1 && fired.is_some() {
+                    acc.count("probe.api_later_fault_of_sequence_fired", (fault != &scn.faults[0]) as u64);
+                }
+                if effective {
                     match obs.calls.get(j) {
                         Some(CallResult::Ok(r)) => {
-                            v = Some(mk(
+                            return Some(mk(
+                                fault,
                                 "C15/2",
                                 "AnswerDespiteFault",
                                 format!("api:{:?}", scn.ops[j]).split('(').next().unwrap_or("api").to_string(),
@@ -800,7 +911,8 @@ fn judge_api(scn: &ApiScenario, obs: &ApiObservation, clean: &ApiObservation, ac
                                     })
                                     .unwrap_or(false);
                                 if !ok {
-                                    v = Some(mk(
+                                    return Some(mk(
+                                        fault,
                                         "C15/3",
                                         if carried.is_some() { "MangledMessage" } else { "MessageLost" },
                                         format!("api-error-reply:{variant}"),
@@ -812,44 +924,34 @@ fn judge_api(scn: &ApiScenario, obs: &ApiObservation, clean: &ApiObservation, ac
                         _ => {}
                     }
                 }
-                // recovery: once the program restarts the solver after the faulted call, the new
-                // session talks to a new process whose answers do not depend on the old one (the
-                // reference solver is seeded per spawn). Every answer given from there on must be
-                // the answer of the fault-free run: anything else was not read from the new
-                // process (stale buffered bytes, a left-over response, a flag that was not reset).
-                if v.is_none() {
-                    if let Some(r) = (j + 1..scn.ops.len()).find(|k| scn.ops[*k] == ApiOp::Restart) {
-                        acc.count("probe.api_restart_after_fault", 1);
-                        for k in r..scn.ops.len() {
-                            match (obs.calls.get(k), clean.calls.get(k)) {
-                                (Some(CallResult::Ok(a)), Some(CallResult::Ok(b))) if a != b => {
-                                    v = Some(mk(
-                                        "C15/2",
-                                        "StaleAnswerAfterRestart",
-                                        site_base.clone(),
-                                        format!(
-                                            "call #{k} ({:?}), in the session started by the restart at call #{r}, returned Ok({a}); the same call of the fault-free run returns Ok({b})",
-                                            scn.ops[k]
-                                        ),
-                                    ));
-                                    break;
-                                }
-                                (Some(CallResult::Err(..)), Some(CallResult::Ok(_))) => {
-                                    acc.count("note.api_error_after_restart", 1);
-                                }
-                                _ => {}
-                            }
-                        }
-                    }
+                earlier_fault = true;
+                healthy = false;
+                continue;
+            }
+            // after the session's fault (or in a session whose process never started): the only
+            // obligation is not to invent answers once there is no process to give them
+            let dead_before = if k == a { spawn_failed.is_some() } else { !obs.alive_after[k - 1] };
+            if dead_before && needs_answer && scn.ops[k] != ApiOp::Restart {
+                acc.count("probe.api_call_on_dead_solver", 1);
+                if let Some(CallResult::Ok(r)) = obs.calls.get(k) {
+                    return Some(mk(
+                        blame,
+                        "C15/2",
+                        "AnswerFromDeadSolver",
+                        site_of(blame),
+                        format!(
+                            "call #{k} ({:?}) returned Ok({r}) although the solver process of session {s} was already dead when the call began",
+                            scn.ops[k]
+                        ),
+                    ));
                 }
             }
-            v
         }
-    };
-    match v {
-        Some(v) if filter_known(acc, &v) => None,
-        other => other,
+        if spawn_failed.is_some() || target.is_some() {
+            earlier_fault = true;
+        }
     }
+    None
 }
 
 fn gen_api_scenario(run_seed: u64) -> ApiScenario {
@@ -995,6 +1097,60 @@ pub fn run_api(run_seed: u64, thorough: bool, acc: &mut Acc) -> Option<(Violatio
             acc.distinct.insert(crate::rng::mix(&[
                 crate::rng::fnv1a(format!("{:?}", base.ops).as_bytes()),
                 crate::rng::fnv1a(f.describe().as_bytes()),
+            ]));
+            if let Some(v) = judge_api(&scn, &obs, &clean, acc) {
+                return Some((v, scn.to_json()));
+            }
+        }
+    }
+    // fault sequences: crash, restart, crash again. Every session of the program (the part between
+    // two `restart` calls) gets no fault, a spawn failure, or one fault at one of its own response
+    // points, addressed relative to the session so that earlier faults do not move it.
+    let n_sessions = base.ops.iter().filter(|o| **o == ApiOp::Restart).count() + 1;
+    if n_sessions >= 2 {
+        let n_seq = if thorough { 32 } else { 10 };
+        for _ in 0..n_seq {
+            let mut faults: Vec<Fault> = vec![];
+            for sess in 0..n_sessions {
+                let locals: Vec<usize> = clean
+                    .local_resp_of_call
+                    .iter()
+                    .flatten()
+                    .filter(|(ps, _)| *ps == sess)
+                    .map(|x| x.1)
+                    .collect();
+                match frng.below(6) {
+                    0 => {}
+                    1 if sess > 0 => faults.push(Fault { at: FaultAt::Spawn(sess), kind: FaultKind::SpawnFail }),
+                    _ => {
+                        if !locals.is_empty() {
+                            let r = *frng.pick(&locals);
+                            let cands = faults_for_point(&mut frng, FaultAt::ProcResponse(sess, r), &CmdKind::CheckSat, false);
+                            let f = frng.pick(&cands).clone();
+                            if !matches!(&f.kind, FaultKind::Garbage { text, .. } if text.trim() == "()") {
+                                faults.push(f);
+                            }
+                        }
+                    }
+                }
+            }
+            if faults.len() < 2 {
+                continue;
+            }
+            let mut scn = base.clone();
+            scn.faults = faults;
+            let obs = exec_api(&scn);
+            acc.evaluations += 1;
+            acc.sim_steps += obs.events;
+            acc.log_hash = acc.log_hash.rotate_left(9) ^ obs.log_hash;
+            acc.count("fault_sequences", 1);
+            acc.count(&format!("fault_sequences.fired_{}", obs.fired.len().min(4)), 1);
+            for fired in &obs.fired {
+                acc.count(&format!("fault.{}", fired.fault.kind.class()), 1);
+            }
+            acc.distinct.insert(crate::rng::mix(&[
+                crate::rng::fnv1a(format!("{:?}", base.ops).as_bytes()),
+                crate::rng::fnv1a(scn.faults.iter().map(|f| f.describe()).collect::<Vec<_>>().join(";").as_bytes()),
             ]));
             if let Some(v) = judge_api(&scn, &obs, &clean, acc) {
                 return Some((v, scn.to_json()));
